@@ -36,3 +36,5 @@ def register():
     H[('MySQLHandshakeV10', 'states')] = ('flags', MySQLStatusFlag)
     H[('MySQLHandshakeSslRequest', 'capabilities')] = ('flags', MySQLCapability)
     H[('DnsRecordDnskey', 'flags')] = ('flags', DnsSecFlag)
+    from cryptoparser.tls.subprotocol import SslErrorMessage, SslHandshakeClientHello, SslHandshakeServerHello
+    H[('SslRecord', 'message')] = ('oneof', [SslErrorMessage])     # header framing is what the record adds; the handshake bodies have their own units
